@@ -184,7 +184,10 @@ def main(tier, replay=None):
     shown = {}
     for key, names in mon_viol:
         for name in names:
-            if shown.get(name, 0) >= 2:
+            if any(k["match"](name, "") for k in c.known):
+                if shown.get(name, 0) >= 1:
+                    continue          # a known finding: reported once, never counted
+            elif shown.get(name, 0) >= 2:
                 c.violation_count = getattr(c, "violation_count", 0) + 1
                 continue
             shown[name] = shown.get(name, 0) + 1
